@@ -312,7 +312,31 @@ class Interp:
         v = hirq.const_eval(self.facts, e)
         if v is not None:
             return [Out('val', ('lit', v), st)]
+        if dk.startswith('Const') or dk.startswith('AssocConst'):
+            agg = self.const_aggregate(e.get('def'))
+            if agg is not None:
+                return [Out('val', agg, st)]
         return [Out('val', ('const', e.get('def')), st)]
+
+    def const_aggregate(self, d):
+        """The value of a workspace `const` item whose initialiser is an aggregate of known values (an array / tuple / enum-variant
+        table such as `[(TagClass, TagStructure); 8]`): a const item denotes the value of its initialiser expression, which is
+        evaluated at compile time and depends on nothing - so the path is that value wherever it is mentioned.  Only a completely
+        known value is used (exactly one outcome, no calls, every leaf a literal or a constructor); anything else stays ('const', d)."""
+        cache = self.facts.__dict__.setdefault('_const_aggregates', {})
+        if d not in cache:
+            cache[d] = None
+            rec = self.facts.hir.get(d) or getattr(self.facts, 'hir_all', {}).get(d)
+            if rec is not None and getattr(self, '_depth', 0) <= 6:
+                try:
+                    sub = Interp(self.facts, hirq.Body(self.facts, rec))
+                    sub._depth = getattr(self, '_depth', 0) + 1
+                    outs = sub.run(env={})
+                except Exception:
+                    outs = []
+                if len(outs) == 1 and outs[0].kind == 'val' and not outs[0].st.ev and outs[0].val[0] in ('array', 'tuple', 'ctor') and ground(outs[0].val):
+                    cache[d] = outs[0].val
+        return cache[d]
 
     def ev_Tup(self, e, st):
         res, abn = self.seq(e['elems'], st)
@@ -2308,6 +2332,9 @@ def builtin_summary(I, cal, args, node, st):
                 return [Out('val', ('ctor', 'Ok', (args[0],)) if fits else ('ctor', 'Err', (('unk', 'TryFromIntError'),)), st)]
     if name in ('is_empty', 'len') and args and args[0][0] == 'lit' and isinstance(args[0][1], (bytes, str)):
         return [Out('val', ('lit', len(args[0][1]) == 0 if name == 'is_empty' else len(args[0][1])), st)]
+    if name == 'input_len' and 'nom::traits::InputLength' in cal and len(args) == 1 and args[0][0] == 'lit' and isinstance(args[0][1], (bytes, str)):
+        # nom's InputLength for &[u8] / &str is `self.len()`: the number of octets
+        return [Out('val', ('lit', len(args[0][1].encode('utf-8') if isinstance(args[0][1], str) else args[0][1])), st)]
     if name in ('is_empty', 'len') and args and args[0][0] == 'vec' and cal.startswith('alloc::vec::Vec'):
         return [Out('val', ('lit', len(args[0][1]) == 0 if name == 'is_empty' else len(args[0][1])), st)]
     if name == 'is_empty' and args and args[0][0] == 'vecpush' and cal.startswith('alloc::vec::Vec'):
